@@ -37,7 +37,35 @@ def names_table(modules) -> Dict[str, List[str]]:
                         inner.add(t)
                 out[f"{m.name}.{n.name}"] = sorted(inner)
         out[m.name] = sorted(top)
+    # local names per function (N3): "<module>::<qualified function name>" -> names stored in that function
+    for m in modules.values():
+        for qual, fn in _functions(m.tree):
+            out[f"{m.name}::{qual}"] = sorted(_stored_locals(fn))
     return out
+
+
+def _functions(tree, prefix=""):
+    for n in getattr(tree, "body", []):
+        if isinstance(n, (ast.FunctionDef, ast.AsyncFunctionDef)):
+            yield prefix + n.name, n
+            yield from _functions(n, prefix + n.name + ".")
+        elif isinstance(n, ast.ClassDef):
+            yield from _functions(n, prefix + n.name + ".")
+
+
+def _own_nodes(fn):
+    """nodes of a function body without nested function / class definitions"""
+    stack = list(fn.body)
+    while stack:
+        n = stack.pop()
+        if isinstance(n, (ast.FunctionDef, ast.AsyncFunctionDef, ast.ClassDef, ast.Lambda)):
+            continue
+        yield n
+        stack.extend(ast.iter_child_nodes(n))
+
+
+def _stored_locals(fn):
+    return {n.id for n in _own_nodes(fn) if isinstance(n, ast.Name) and isinstance(n.ctx, (ast.Store, ast.Del))}
 
 
 def _targets(n):
@@ -72,7 +100,90 @@ def apply(modules) -> dict:
     stats = {"constants": [], "namedtuples": []}
     _constants(modules, known, stats)
     _namedtuples(modules, known, stats)
+    stats["named_conditions"] = _named_conditions(modules, known)
     return stats
+
+
+# ---------------------------------------------------------------------------------------------------------------- N3
+def _first_evaluated(test, name):
+    """the Name node `name` inside `test` if it is the first thing the test evaluates (so that moving the evaluation of its value from the statement in
+    front of the `if` into the test changes nothing): `x`, `not x`, `x and ...`, `not x or ...`, `x == ...`, `x is None`"""
+    t = test
+    while True:
+        if isinstance(t, ast.UnaryOp) and isinstance(t.op, ast.Not):
+            t = t.operand
+        elif isinstance(t, ast.BoolOp):
+            t = t.values[0]
+        elif isinstance(t, ast.Compare):
+            t = t.left
+        else:
+            break
+    return t if isinstance(t, ast.Name) and t.id == name else None
+
+
+def _named_conditions(modules, known) -> int:
+    """N3: a local that the reference tree does not have, bound to an expression and read exactly once - as the first thing the test of the `if` statement that
+    directly follows the binding evaluates - is a NAME for that condition (`same_digest = a == b` / `if not same_digest: continue`); the expression is put back
+    into the test. A local read anywhere else is left alone."""
+    count = 0
+    for m in modules.values():
+        for qual, fn in _functions(m.tree):
+            kn = known.get(f"{m.name}::{qual}")
+            stored = _stored_locals(fn)
+            new_locals = stored - set(kn) if kn is not None else stored
+            if not new_locals:
+                continue
+            params = {a.arg for a in fn.args.posonlyargs + fn.args.args + fn.args.kwonlyargs} | ({fn.args.vararg.arg} if fn.args.vararg else set()) | ({fn.args.kwarg.arg} if fn.args.kwarg else set())
+            loads = {}
+            for n in _own_nodes(fn):
+                if isinstance(n, ast.Name) and isinstance(n.ctx, ast.Load):
+                    loads.setdefault(n.id, []).append(n)
+            # nested functions reading the name make it non-local to this analysis
+            nested_reads = {n.id for d in ast.walk(fn) if d is not fn and isinstance(d, (ast.FunctionDef, ast.AsyncFunctionDef, ast.Lambda)) for n in ast.walk(d) if isinstance(n, ast.Name)}
+            pairs = {}  # name -> list of (block, index, name node in the test)
+            ok_names = set(new_locals) - params - nested_reads
+
+            def scan(block):
+                for i, st in enumerate(block):
+                    for fld in ("body", "orelse", "finalbody"):
+                        sub = getattr(st, fld, None)
+                        if isinstance(sub, list) and sub and isinstance(sub[0], ast.stmt):
+                            scan(sub)
+                    for h in getattr(st, "handlers", []) or []:
+                        scan(h.body)
+                    if isinstance(st, ast.Assign) and len(st.targets) == 1 and isinstance(st.targets[0], ast.Name) and st.targets[0].id in ok_names and i + 1 < len(block) and isinstance(block[i + 1], ast.If):
+                        nm = _first_evaluated(block[i + 1].test, st.targets[0].id)
+                        if nm is not None and sum(1 for x in ast.walk(block[i + 1].test) if isinstance(x, ast.Name) and x.id == nm.id) == 1:
+                            pairs.setdefault(nm.id, []).append((block, i, nm))
+
+            scan(fn.body)
+            for name, ps in pairs.items():
+                # every read of the name is one of these paired reads
+                if len(loads.get(name, [])) != len(ps) or {id(x) for x in loads.get(name, [])} != {id(nm) for _, _, nm in ps}:
+                    continue
+                # and every binding of the name is one of the paired bindings
+                n_stores = sum(1 for n in _own_nodes(fn) if isinstance(n, ast.Name) and n.id == name and isinstance(n.ctx, (ast.Store, ast.Del)))
+                if n_stores != len(ps):
+                    continue
+                for block, i, nm in sorted(ps, key=lambda t: -t[1]):
+                    asg = block[i]
+                    if_ = block[block.index(asg) + 1]
+                    value = asg.value
+
+                    class _R(ast.NodeTransformer):
+                        def visit_Name(self, node):
+                            return ast.copy_location(value, node) if node is nm else node
+
+                    if_.test = _R().visit(if_.test)
+                    block.remove(asg)
+                    count += 1
+    if count:
+        for m in modules.values():
+            ast.fix_missing_locations(m.tree)
+            from .model import set_parents
+
+            set_parents(m.tree)
+    return count
 
 
 # ---------------------------------------------------------------------------------------------------------------- N1
